@@ -194,6 +194,10 @@ def op_fpnum_decode(H, fmt, v):
 def op_fpnum_round_trip(H, fmt, v):
     return guarded(lambda: H.FPNum(v, fmt).convert(fmt)), (canon_nan(fmt) if is_nan_pattern(fmt, v) else v)
 
+def op_fpnum_to_float(H, fmt, v):
+    """FPNum(v, fmt).to_float() is the float the pattern denotes (exact: every half/single/double value is a double)"""
+    return guarded(lambda: xfloat(H.FPNum(v, fmt).to_float())), xfloat(bits_to_float(fmt, v))
+
 def op_fpnum_from_float(H, xh):
     """FPNum(x) denotes exactly x; back to float and to the double pattern"""
     x = float.fromhex(xh)
